@@ -475,7 +475,44 @@ pub fn generate(rng: &mut Rng, tier: Tier) -> Plan {
         }
         match rng.weighted(&[40, 25, 12, 10, if forked { 1 } else { 6 }]) {
             0 => {
-                let items = gen_valid_items(rng, &cur, float_only);
+                let mut items = gen_valid_items(rng, &cur, float_only);
+                if rng.chance(0.015) {
+                    // a long batch of ticks over a few pairs: the LAST entry of each pair is
+                    // the latest quote
+                    let pairs: Vec<Quote> = {
+                        let k = rng.usize_in(1, cur.len().min(4));
+                        let mut idx: Vec<usize> = (0..cur.len()).collect();
+                        rng.shuffle(&mut idx);
+                        idx.truncate(k);
+                        idx.into_iter().map(|i| cur[i].clone()).collect()
+                    };
+                    let len = *rng.pick(&[33usize, 40, 65, 70, 100, 130]);
+                    items = (0..len)
+                        .map(|_| {
+                            let q = rng.pick(&pairs);
+                            Quote {
+                                lhs: q.lhs.clone(),
+                                rhs: q.rhs.clone(),
+                                num: q.num.with_value(gen_level(rng)),
+                                settle: q.settle,
+                                tod: q.tod,
+                            }
+                        })
+                        .collect();
+                }
+                if rng.chance(0.03) && items.len() >= 2 {
+                    // an earlier, superseded entry of a pair carries another settlement date:
+                    // after the merge (last entry wins) the list is consistent
+                    let last = items.len() - 1;
+                    let mut early = items[last].clone();
+                    early.settle = match early.settle {
+                        Some(d) => Some((d - rng.i64_in(1, 5)).max(-2_400_000)),
+                        None => Some(rng.i64_in(10957, 22000)),
+                    };
+                    early.num = early.num.with_value(gen_level(rng));
+                    let pos = rng.usize_in(0, last);
+                    items.insert(pos, early);
+                }
                 let t = target(rng, forked);
                 if t == 0 {
                     apply(&mut cur, &items);
@@ -1338,6 +1375,12 @@ pub fn execute(plan: &Plan, obs: &mut Obs) -> Result<(), Fail> {
                         // reach probes for the rarer kinds of update
                         if items.is_empty() {
                             obs.count("reach.empty_update");
+                        }
+                        if items.len() > 32 {
+                            obs.count("reach.update_batch_over_32_entries");
+                        }
+                        if items.len() > 64 {
+                            obs.count("reach.update_batch_over_64_entries");
                         }
                         if items.iter().enumerate().any(|(i, a)| {
                             items[..i].iter().any(|b| a.lhs == b.lhs && a.rhs == b.rhs)
